@@ -20,6 +20,8 @@ import (
 	"testing"
 	"time"
 
+	"github.com/AdguardTeam/AdGuardHome/internal/aghalg"
+	"github.com/AdguardTeam/AdGuardHome/internal/aghnet"
 	"github.com/AdguardTeam/dnsproxy/proxy"
 	"github.com/AdguardTeam/golibs/errors"
 	"go.etcd.io/bbolt"
@@ -166,6 +168,7 @@ const (
 	c09ErrLogged = 16 // the code logged at error level during the step
 	c09ErrDB     = 32 // the database file could not be read back
 	c09ErrStop   = 64 // flush told the periodic flusher to stop although there is a current unit
+	c09ErrConfig = 128 // GET /control/stats/config or stats_info failed or disagrees with WriteDiskConfig
 )
 
 type c09Obs struct {
@@ -181,6 +184,8 @@ type c09Obs struct {
 	Tops     [4][][2]int64
 	DB       [][2]int64
 	Avg      int64 // avg_processing_time, whole microseconds
+	Info     int64 // GET /control/stats_info: interval in days
+	TopIPs   []int64
 	ErrMsgs  []string
 }
 
@@ -215,9 +220,13 @@ func (o *c09Obs) coq() string {
 	for i := range o.Tops {
 		tops[i] = c09Pairs(o.Tops[i])
 	}
-	return fmt.Sprintf("Obs %s %d %d %s %d %s %s %d %s %s %s %d", vfBool(o.Panicked), o.Err, o.CfgMs, vfBool(o.CfgEn),
+	ips := make([]string, len(o.TopIPs))
+	for i, k := range o.TopIPs {
+		ips[i] = fmt.Sprint(k)
+	}
+	return fmt.Sprintf("Obs %s %d %d %s %d %s %s %d %s %s %s %d %d %s", vfBool(o.Panicked), o.Err, o.CfgMs, vfBool(o.CfgEn),
 		o.CurID, vfList("Z", tot), vfBool(o.Days), o.Len, vfList("list (Z * Z)", ser),
-		vfList("list (Z * Z)", tops), c09Pairs(o.DB), o.Avg)
+		vfList("list (Z * Z)", tops), c09Pairs(o.DB), o.Avg, o.Info, vfList("Z", ips))
 }
 
 // ---- the system under test plus the harness' own bookkeeping
@@ -295,7 +304,12 @@ func (h c09LogHandler) WithAttrs([]slog.Attr) slog.Handler { return h }
 func (h c09LogHandler) WithGroup(string) slog.Handler      { return h }
 
 func (m *c09Sim) conf(ms int64, en bool) Config {
+	ign, err := aghnet.NewIgnoreEngine(nil)
+	if err != nil {
+		panic(err)
+	}
 	return Config{
+		Ignored:           ign,
 		Logger:            slog.New(c09LogHandler{m}),
 		UnitID:            func() uint32 { return m.hour.Load() },
 		ConfigModified:    func() {},
@@ -614,6 +628,33 @@ func (m *c09Sim) observe(panicked bool) (o *c09Obs) {
 	dc := Config{}
 	m.s.WriteDiskConfig(&dc)
 	o.CfgMs, o.CfgEn = dc.Limit.Milliseconds(), dc.Enabled
+
+	// The other readers: the two configuration endpoints and TopClientsIP.
+	info := configResp{}
+	if w := m.call("GET", "/control/stats_info", ""); w.Code != http.StatusOK || json.Unmarshal(w.Body.Bytes(), &info) != nil {
+		m.fail(c09ErrConfig, "GET /control/stats_info: %d %s", w.Code, strings.TrimSpace(w.Body.String()))
+	}
+	o.Info = int64(info.IntervalDays)
+	gc := getConfigResp{}
+	if w := m.call("GET", "/control/stats/config", ""); w.Code != http.StatusOK || json.Unmarshal(w.Body.Bytes(), &gc) != nil {
+		m.fail(c09ErrConfig, "GET /control/stats/config: %d %s", w.Code, strings.TrimSpace(w.Body.String()))
+	} else if int64(gc.Interval) != o.CfgMs || (gc.Enabled == aghalg.NBTrue) != o.CfgEn || gc.Enabled == aghalg.NBNull {
+		m.fail(c09ErrConfig, "GET /control/stats/config says interval %v enabled %v, WriteDiskConfig %d %v", gc.Interval, gc.Enabled, o.CfgMs, o.CfgEn)
+	}
+	o.TopIPs = []int64{}
+	for _, ip := range m.s.TopClientsIP(1000) {
+		o.TopIPs = append(o.TopIPs, c09Key(c09Clients, ip.String()))
+	}
+	sort.Slice(o.TopIPs, func(i, j int) bool { return o.TopIPs[i] < o.TopIPs[j] })
+	if len(o.TopIPs) > 0 {
+		m.classes["top-clients-ip"] = true
+	}
+	switch {
+	case o.Info == 90 && o.CfgMs != 90*24*c09MsHour:
+		m.classes["stats-info-custom-interval-as-90"] = true
+	case o.Info == 0:
+		m.classes["stats-info-disabled"] = true
+	}
 
 	w := m.call("GET", "/control/stats", "")
 	resp := &StatsResp{}
